@@ -11,6 +11,7 @@ import (
 	"io"
 
 	"github.com/go-git/go-git/v6/plumbing"
+	gogithash "github.com/go-git/go-git/v6/plumbing/hash"
 	"github.com/go-git/go-git/v6/utils/binary"
 )
 
@@ -131,11 +132,7 @@ func readHashFunction(d *decoder) (stateFn, error) {
 		return nil, ErrUnsupportedHashFunction
 	}
 
-	if !d.hasher.Available() {
-		return nil, fmt.Errorf("%w: %v not registered", ErrUnsupportedHashFunction, d.hasher)
-	}
-
-	d.hash = d.hasher.New()
+	d.hash = gogithash.New(d.hasher)
 	err = binary.Write(d.hash, revHeader, d.version, hf)
 	if err != nil {
 		return nil, fmt.Errorf("failed to hash rev header: %w", err)
